@@ -109,6 +109,42 @@ Proof.
   split; [exact GeneratorExample.same|exact GeneratorExample.scans].
 Qed.
 
+(* (1') ... and under [deps_safe] (no statement that is dirty for its own reason has a usable,
+   generated recorded dep without a manifest path) nothing the targets need is skipped: every
+   statement needed through manifest inputs of any kind or usable recorded deps is visited, and the
+   flags of all its outputs are the specified ones.  This is the scan-level C10/C01 partial. *)
+Theorem scan_visits_needed :
+  forall (g : graph) (w : world), wf_spec g ->
+  forall (targets : list node) (s : sstate) (p : plan),
+    deps_safe g w -> scan g w targets = ScanOk s p ->
+    forall e, needed g w targets e -> es_mark (st_edge s e) = VisitDone.
+Proof. exact scan_visits_needed. Qed.
+Print Assumptions scan_visits_needed.
+
+Theorem scan_dirty_spec_needed :
+  forall (g : graph) (w : world), wf_spec g ->
+  forall (targets : list node) (s : sstate) (p : plan),
+    deps_safe g w -> scan g w targets = ScanOk s p ->
+    forall e o, needed g w targets e -> g_producer g o = Some e ->
+      (ns_dirty (st_node s o) = true <-> must_dirty g w o) /\
+      (ns_dirty (st_node s o) = false ->
+       forall x, x < ns_mtime (st_node s o) <-> newer_than g w x o).
+Proof. exact scan_dirty_spec_needed. Qed.
+Print Assumptions scan_dirty_spec_needed.
+
+Example scan_visits_needed_nonvacuous :
+  wf_spec DepsSafeExample.g /\ deps_safe DepsSafeExample.g DepsSafeExample.w /\
+  needed DepsSafeExample.g DepsSafeExample.w [1%nat] 0%nat /\
+  match scan DepsSafeExample.g DepsSafeExample.w [1%nat] with
+  | ScanOk s p => es_mark (st_edge s 0%nat) = VisitDone /\ es_ins (st_edge s 1%nat) = [3%nat; 0%nat] /\
+                  p_want p 0%nat = Some WantToStart /\ p_want p 1%nat = Some WantToStart
+  | _ => False
+  end.
+Proof.
+  split; [exact C10Witness.wf|]. split; [exact DepsSafeExample.safe|].
+  split; [exact DepsSafeExample.hdr_needed|exact DepsSafeExample.scanned].
+Qed.
+
 (* (4) C10, REFUTED: "a usable recorded dep that is generated and must be remade is brought up
    to date (its statement is wanted) whenever the consumer is requested" is false of the
    faithful model.  Witness: consumer dirty for its own reason (its source was edited) and the
